@@ -127,8 +127,8 @@ def readItem : Nat → List Tok → Res (List Expr)
     | [] => .ok ([], [])
     | t :: r =>
       if t.cat == .Escape then
-        -- peek: `read_command(src, skip=1)`, result discarded except for the name
-        (readCommand f (-1) (-1) false .nonMath r).bind fun na _ =>
+        -- peek: `read_command(src, 0, 0, skip=1)`: only the name is read
+        (readCommand f 0 0 false .nonMath r).bind fun na _ =>
           if na.1.text == sEnd || na.1.text == sItem then .ok ([], t :: r)
           else (readExpr f [] false .nonMath (t :: r)).bind fun e ts1 =>
             (readItem f ts1).bind fun es ts2 => .ok (e :: es, ts2)
